@@ -8,8 +8,13 @@ from vlib import SPEC
 from checks import c04
 
 D = SPEC / "Race"
-V = [{"thr": 3, "tgts": ["a"], "span": False}, {"thr": 5, "tgts": ["a", "b"], "span": False}, {"thr": 1, "tgts": ["b"], "span": False}, {"thr": 4, "tgts": ["a"], "span": False}]
-VENV = [{"thr": 3, "tgts": ["a"], "span": False}, {"thr": 3, "tgts": ["a"], "span": True}, {"thr": 1, "tgts": ["a", "b"], "span": False}, {"thr": 2, "tgts": ["a"], "span": True}]
+V = [{"thr": 3, "tgts": ["a"], "span": False, "none": False}, {"thr": 5, "tgts": ["a", "b"], "span": False, "none": False},
+     {"thr": 1, "tgts": ["b"], "span": False, "none": False}, {"thr": 4, "tgts": ["a"], "span": False, "none": False}]
+VENV = [{"thr": 3, "tgts": ["a"], "span": False, "none": False}, {"thr": 3, "tgts": ["a"], "span": True, "none": False},
+        {"thr": 1, "tgts": ["a", "b"], "span": False, "none": False}, {"thr": 2, "tgts": ["a"], "span": True, "none": False}]
+# a reloadable Option<Targets>: Some(..) -> Some(..) -> None -> Some(..)
+VOPT = [{"thr": 3, "tgts": ["a"], "span": False, "none": False}, {"thr": 2, "tgts": ["a", "b"], "span": False, "none": False},
+        {"thr": 0, "tgts": [], "span": False, "none": True}, {"thr": 1, "tgts": ["b"], "span": False, "none": False}]
 CS = [{"lvl": 3, "tgt": "a"}, {"lvl": 5, "tgt": "b"}, {"lvl": 1, "tgt": "b"}, {"lvl": 4, "tgt": "a"}, {"lvl": 2, "tgt": "a"}]
 hit = lambda c, k="event", inspan=False: {"op": "hit", "c": c, "k": k, "inspan": inspan}
 rl = lambda v: {"op": "reload", "v": v}
@@ -18,7 +23,7 @@ rl = lambda v: {"op": "reload", "v": v}
 def scenarios(rng, n):
     out = []
     for i in range(n):
-        kind = rng.choice(["global", "perlayer", "env"])
+        kind = rng.choice(["global", "perlayer", "env", "optglobal"])
         nth = rng.choice([2, 2, 3])
         threads = []
         reloads = [1, 2] if rng.random() < 0.7 else [rng.choice([1, 2, 3])]
@@ -34,7 +39,7 @@ def scenarios(rng, n):
                 for o in th:
                     if o["op"] == "hit" and rng.random() < 0.5:
                         o["inspan"], o["k"] = True, "event"
-        out.append({"name": "R-%s-%d" % (kind, i), "collectors": {}, "reload": {"kind": kind, "values": VENV if kind == "env" else V}, "threads": threads})
+        out.append({"name": "R-%s-%d" % (kind, i), "collectors": {}, "reload": {"kind": kind, "values": VENV if kind == "env" else VOPT if kind == "optglobal" else V}, "threads": threads})
     return out
 
 
@@ -66,7 +71,7 @@ def run(out, tier):
     found, results = trace.validate(D, "RaceTrace", tr, "c12", nchunks=8, jobs=8, tags=("BAD",))
     c04.judge(out, behs, lines, tr, found, "C12")
     out.rule = ("a case is one (scenario, schedule) pair: a shared stack with a reloadable Targets filter (global layer or per-layer filter), one thread "
-                "reloading 1-2 times between emissions, 1-2 other threads emitting from 5 callsites (verdicts cached as always / never beforehand), run under "
+                "reloading 1-2 times (Targets as global layer or per-layer filter, EnvFilter, or an Option<Targets> layer going Some -> None) between emissions, 1-2 other threads emitting from 5 callsites (verdicts cached as always / never beforehand), run under "
                 "the cooperative scheduler at the yield points of reload::Handle::modify, the callsite registry and MacroCallsite; every emission is judged by "
                 "TLC against the values in effect between its start and end; quiescent round and dead-handle check at the end")
 
